@@ -29,6 +29,7 @@ def run(ctx):
         "samples": res.samples or [{"note": "none"}],
         "programs": int(st.get("programs", 0)),
         "emulation_runs": int(st.get("emulation_runs", 0)),
+        "array_mappings_across_4GiB_summed_over_workers": int(st.get("regions_across_4GiB", 0)),
         "exhaustive": not res.incomplete,
         "notes": res.notes[:5],
     }
